@@ -285,10 +285,18 @@ def op_cli_total(t):
     unit, text = t.next(), dec(t.next())
     out = run_cli(["--as-total=" + unit, text])
 
-    def compute():
-        d = parsers.DurationParser().parse(text)
-        return str(d.get_seconds() / {"S": 1, "M": 60, "H": 3600}[unit.upper()])
-    return "%s ; %s" % (out, lib(compute))
+    try:
+        want = parsers.DurationParser().parse(text).get_seconds() / {"S": 1, "M": 60, "H": 3600}[unit.upper()]
+    except ValueError as exc:
+        return "%s ; %s" % (out, "LIBERR " + classify(exc).split()[-1])
+    if not out.startswith("OUT "):
+        return "%s ; NUMBAD %r" % (out, want)
+    try:
+        got = float(dec(out[4:]).strip())
+    except ValueError:
+        return "%s ; NUMBAD %r" % (out, want)
+    # the printed number is the duration in that unit (printed as an int or a float: both are that number)
+    return "%s ; %s" % (out, "NUMOK" if got == want else "NUMBAD %r" % want)
 
 
 def op_cli_stdin(t):
